@@ -165,6 +165,46 @@ func runAlias(line []byte, rec *recorder) {
 	n++
 	var events []M
 	events = append(events, M{"ev": "reset", "t": sc.SID, "kind": "alias", "streams": n})
+	// independence of instances used one after the other: tiny inputs (where packet-size detection sees less than its whole window)
+	// give the same outcome whatever other Demuxers did before
+	var probes [][]byte
+	for _, l := range []int{0, 1, 187, 188, 189, 190, 191, 192, 193, 200, 376} {
+		if l <= len(streams[0]) {
+			probes = append(probes, streams[0][:l])
+		}
+	}
+	if len(streams[0]) >= 188 {
+		probes = append(probes, reframe(streams[0][:188], 192, r), reframe(streams[0][:188], 204, r))
+	}
+	probe := func(phase int) {
+		for k, in := range probes {
+			seq := []string{}
+			dmx := astits.NewDemuxer(context.Background(), bytes.NewReader(in))
+			for c := 0; c < 4; c++ {
+				var p *astits.Packet
+				var err error
+				if pn := safeCall(func() { p, err = dmx.NextPacket() }); pn != nil {
+					seq = append(seq, "panic")
+					break
+				}
+				if err != nil {
+					seq = append(seq, "err:"+errClass(err)+":"+digest([]byte(err.Error())))
+					if err == astits.ErrNoMorePackets {
+						break
+					}
+					continue
+				}
+				seq = append(seq, "pkt:"+jsonDigest(p))
+			}
+			ev := "again"
+			if phase == 0 {
+				ev = "first"
+			}
+			events = append(events, M{"ev": ev, "inst": 1000 + k, "phase": phase, "seq": seq})
+		}
+		thePoolLog.take()
+	}
+	probe(0)
 	type handle struct {
 		h   int
 		val interface{}
@@ -228,6 +268,14 @@ func runAlias(line []byte, rec *recorder) {
 	runtime.GC()
 	for _, hd := range handles {
 		events = append(events, M{"ev": "chk", "h": hd.h, "dg": jsonDigest(hd.val), "when": "end"})
+	}
+	probe(1)
+	for _, sz := range []int{192, 204, 189} { // other framings detected by other instances in between
+		d2 := astits.NewDemuxer(context.Background(), bytes.NewReader(reframe(streams[0], sz, r)))
+		for c := 0; c < 3; c++ {
+			d2.NextPacket()
+		}
+		probe(2)
 	}
 	// the Muxer never modifies the caller's payload bytes (any header / AF class, any length)
 	{
